@@ -144,6 +144,10 @@ class MDOParallelChain(ProcessDiscipline):
         self.jac = {}
         # Update jacobians according to input order of priority
         for discipline_jacobian in jacobians:
+            if discipline_jacobian is None:
+                # The linearization of this discipline failed.
+                continue
+
             for output_name, output_jacobian in discipline_jacobian.items():
                 chain_jacobian = self.jac.get(output_name)
                 if chain_jacobian is None:
